@@ -25,35 +25,28 @@ func zzPutSnapshot(s *BadgerStore, snap *common.SnapshotWithTopologicalOrder) {
 // ZZ_C35: topology positions are a strictly increasing unique cursor.
 func ZZ_C35() {
 	s := ZZNewStore()
-	seq := vr.U64() // the node's counter (kernel TopoWrite: seq += 1 under its lock)
-	vr.Assume(seq < 1<<63)
 	type rec struct {
 		pos  uint64
 		hash crypto.Hash
 	}
 	var all []rec
-	// pre-state: 0..2 earlier entries at arbitrary increasing positions <= seq
-	pre := vr.Choose(0, 2)
+	// positions are handed out by the node's counter (kernel TopoWrite: seq += 1 under its
+	// lock): an arbitrary strictly increasing sequence; the first `pre` entries are the
+	// pre-existing state, the rest are new writes
+	maxPre, maxW := 1, 2
+	if vr.Tier() > 0 {
+		maxPre, maxW = 2, 3
+	}
+	pre := vr.Choose(0, maxPre)
+	k := vr.Choose(1, maxW)
 	last := uint64(0)
-	for i := 0; i < pre; i++ {
+	for i := 0; i < pre+k; i++ {
 		p := vr.U64()
-		vr.Assume(p > last && p <= seq)
+		vr.Assume(p > last)
 		last = p
-		sn := &common.SnapshotWithTopologicalOrder{Snapshot: zzSnap(uint64(vr.Choose(0, 1))), TopologicalOrder: p}
+		sn := &common.SnapshotWithTopologicalOrder{Snapshot: zzSnap(0), TopologicalOrder: p}
 		zzPutSnapshot(s, sn)
 		all = append(all, rec{p, sn.PayloadHash()})
-	}
-	// new writes take seq+1, seq+2, ...
-	maxW := 2
-	if vr.Tier() > 0 {
-		maxW = 3
-	}
-	k := vr.Choose(1, maxW)
-	for i := 0; i < k; i++ {
-		seq++
-		sn := &common.SnapshotWithTopologicalOrder{Snapshot: zzSnap(uint64(vr.Choose(0, 1))), TopologicalOrder: seq}
-		zzPutSnapshot(s, sn)
-		all = append(all, rec{seq, sn.PayloadHash()})
 	}
 	// content addressing: distinct snapshots have distinct payload hashes (no BLAKE3 collision)
 	for i := range all {
@@ -61,11 +54,8 @@ func ZZ_C35() {
 			vr.Assume(all[i].hash != all[j].hash)
 		}
 	}
-	for i := 1; i < len(all); i++ {
-		vr.Assert(all[i].pos > all[i-1].pos, "assigned-positions-strictly-increase")
-	}
 	// an occupied position is never overwritten
-	dup := &common.SnapshotWithTopologicalOrder{Snapshot: zzSnap(1), TopologicalOrder: all[vr.Choose(0, len(all)-1)].pos}
+	dup := &common.SnapshotWithTopologicalOrder{Snapshot: zzSnap(0), TopologicalOrder: all[vr.Choose(0, 1)*(len(all)-1)].pos} // first or last occupied position
 	vr.Assert(vr.Catch(func() { zzPutSnapshot(s, dup) }), "occupied-position-panics-instead-of-overwriting")
 
 	// listing from a cursor
